@@ -127,11 +127,11 @@ let mk_sys toks =
               if lost = [] then incr blocked_benign
               else begin
                 let (i, _) = List.hd lost in
-                (* the known class (known_findings.json key event:lost-wakeup-notified-empty-trigger) is EXACTLY:
-                   notification_state = Notified, trigger empty, listener (thread 0) blocked; anything else is a different defect *)
+                (* the class of the FIXED finding event:lost-wakeup-notified-empty-trigger (notification_state = Notified, trigger
+                   empty, listener blocked) is still told apart in the message, but it is a violation like any other now *)
                 if List.mem "st2" final && List.mem "tr0" final && blocked = ["B0"] then begin
                   incr known_class;
-                  seterr (Printf.sprintf "LOST-WAKEUP-KNOWN-CLASS: listener blocked forever in blocking_wait with notification_state=Notified and an empty trigger while id %d, whose notify returned Ok, is pending and undelivered" i) end
+                  seterr (Printf.sprintf "LOST-WAKEUP-NOTIFIED-EMPTY-TRIGGER (class of the finding fixed by /repo c0b284e: regression): listener blocked forever in blocking_wait with notification_state=Notified and an empty trigger while id %d, whose notify returned Ok, is pending and undelivered" i) end
                 else seterr (Printf.sprintf "LOST-WAKEUP-OTHER: listener blocked forever (final [%s]) while id %d, whose notify returned Ok, is pending and undelivered" (sconcat final) i)
               end end
           end);
@@ -140,6 +140,6 @@ let mk_sys toks =
 
 let () =
   run mk_sys (fun toks -> String.concat " " toks);
-  Printf.printf "EXTRA known_class_executions %d\nEXTRA blocked_forever_benign %d\n" !known_class !blocked_benign;
+  Printf.printf "EXTRA notified_empty_trigger_executions %d\nEXTRA blocked_forever_benign %d\n" !known_class !blocked_benign;
   Hashtbl.iter (fun sg r -> Printf.printf "EXTRA spec_signature_repeats %d\n" (!r - 1)) seen_sig;
   Hashtbl.iter (fun k r -> Printf.printf "EXTRA site_%d %d\n" k !r) site_count
